@@ -121,16 +121,18 @@ def _read_all(fp_factory):
 class FailingFile(io.BytesIO):
     """fails (mode 'fail') or writes only half of the data and then fails (mode 'short') at the i-th write call"""
 
-    def __init__(self, at, mode, once=True):      # the fault hits exactly one call; later calls succeed
+    def __init__(self, at, mode, once=True, err=None):      # the fault hits exactly one call; later calls succeed
         super().__init__()
-        self.at, self.mode, self.calls = at, mode, 0
+        self.at, self.mode, self.calls, self.err = at, mode, 0, err
 
     def write(self, data):
         self.calls += 1
         if self.calls == self.at:
             if self.mode == "short":
                 super().write(data[: len(data) // 2])
-            raise OSError("injected write failure")
+            if self.err is not None:
+                raise OSError(self.err, os.strerror(self.err))      # EAGAIN / EINTR / ENOSPC ...: the kind of failure
+            raise OSError("injected write failure")                 # changes nothing about what is on disk
         return super().write(data)
 
     def close(self):
@@ -283,9 +285,14 @@ def run_real(case):
             # a producer that CARRIES ON after one failed write call (ENOSPC on one call, nothing of it written): the
             # file has a hole - a whole frame, or the body after its length prefix, is missing. Whatever the reader
             # yields must still be records that were written, unmodified and in order (then it ends or raises).
-            for at in range(1, total_calls + 1):
-                f = FailingFile(at, "fail", once=True)
-                w2 = RecordStreamWriter(f)
+            import errno as _errno
+            from flow.record.adapter.stream import StreamWriter
+            variants = [(RecordStreamWriter, None, "")] + [(StreamWriter, e_, f" (stream adapter, {_errno.errorcode[e_]})")
+                                                           for e_ in (_errno.EAGAIN, _errno.EINTR, _errno.ENOSPC)]
+            for mk, err_, label in variants:
+              for at in range(1, total_calls + 1):
+                f = FailingFile(at, "fail", once=True, err=err_)
+                w2 = mk(f)
                 okidx = []
                 for i, r in enumerate(recs):
                     try:
@@ -302,12 +309,17 @@ def run_real(case):
                 want = [full_obs[i] for i in okidx]
                 if gobs != want[:len(gobs)]:
                     k_ = next((i for i, (a_, b_) in enumerate(zip(gobs, want)) if a_ != b_), min(len(gobs), len(want)))
-                    problems.append(f"write fault fail@{at}, producer carried on: records yielded are not a prefix of the "
+                    problems.append(f"write fault fail@{at}{label}, producer carried on: records yielded are not a prefix of the "
                                     f"completely written ones (first difference at position {k_}: "
                                     f"{str(gobs[k_] if k_ < len(gobs) else None)[:120]})")
                 elif end == "eof" and len(gobs) != len(want):
-                    problems.append(f"write fault fail@{at}, producer carried on: the reader ended cleanly after "
+                    problems.append(f"write fault fail@{at}{label}, producer carried on: the reader ended cleanly after "
                                     f"{len(gobs)} of {len(want)} completely written records")
+                elif len(okidx) == len(recs) and f.calls >= at and (end != "eof" or len(gobs) != len(recs)):
+                    # the file object failed one call, yet every write() returned normally: the writer claims that all
+                    # records are complete, so all of them must be there
+                    problems.append(f"write fault fail@{at}{label}: no write() call reported the failure, but only "
+                                    f"{len(gobs)} of {len(recs)} records are read back ({end})")
         return {"len": len(data), "stream": data.hex(), "hashes": hashes, "per_cut": per_cut, "ncuts": ncuts,
                 "nfaults": nfaults, "n_records": len(recs), "n_frames": len(frames), "full_end": end_full,
                 "problems": problems[:5], "n_problems": len(problems)}
